@@ -16,6 +16,7 @@ var scanProps = []string{"C01", "C02", "C03", "C04", "C06", "C07", "C08", "C09",
 
 func init() {
 	engines["SCAN"] = scanEngine
+	engines["C05S"] = scanEngine // C05, scan side: scale-up composition and the node-size cache (mismatches_C05S / propfail_C05S)
 	for _, p := range scanProps {
 		engines[p] = scanEngine
 	}
@@ -144,8 +145,12 @@ func scanEngine(prop, tier string, rng *rand.Rand, replay []json.RawMessage) (*E
 	if prop == "SCAN" {
 		suffix = "scan"
 	}
+	evals := []EvalDef{{"R", "mismatches_" + suffix}, {"V", "propfail_" + suffix}, {"T", "tags_scan"}, {"W", "illformed_scan"}}
+	if prop == "C19" || prop == "SCAN" {
+		evals = append(evals, EvalDef{"K_K3", "known_K3"}) // known finding K3: not-in-group on the force-removal path is only logged
+	}
 	res := &EngineResult{Import: "CorrScan", CaseType: "scan_case", PerShard: 60,
-		Evals: []EvalDef{{"R", "mismatches_" + suffix}, {"V", "propfail_" + suffix}, {"T", "tags_scan"}, {"W", "illformed_scan"}},
+		Evals: evals,
 		Rule: "scans of the real Controller.RunOnce over a simulated API server and simulated AWS; per-property boundary-directed worlds first, then multi-scan " +
 			"histories of one controller instance (every scan emitted with its actual pre-scan state), then free-combination random worlds; " +
 			"non-trivial = the scan issued at least one Kubernetes or AWS call; distinct = distinct (journal, post-state, outcome)",
@@ -236,12 +241,9 @@ func sortedStrings(m map[string]bool) []string {
 // scan matches, or "".  Such scans are dropped from the default streams; VERIF_GEN_INCLUDE=<name> keeps them.
 func excludedShape(prop string, s *scanSpec) string {
 	for _, g := range s.Groups {
-		// oom_untaint_capacity (every property; a defect of the code, outside the executable model): untaintNewestN allocates
-		// make([]int, 0, n) with n = the requested scale-up delta, which is unbounded: requests / capacity ratios of ~1e9 (a pod
-		// asking for billions of cores, a node reporting one byte of memory) make the process die with "out of memory".
-		if d := roughScaleUpDelta(s, g); d > 5e6 {
-			return "oom_untaint_capacity"
-		}
+		// (oom_untaint_capacity was guarded out here until /repo commit 0dab031 bounded the slice in untaintNewestN; the shape is
+		// part of the C20 stream now.)
+		_ = g
 		// (stale_lock_flag_early_return for C02 and c06_fatal_reap_nonmember for C06 were excluded here until main restated
 		// check_C02_group / api_faithful; the corpus files stay as regression inputs and are quiet now.)
 		// (zero_created_zero_lastout was excluded here until main's Scan.newer_than read a never-set lastScaleOut as Go's zero
